@@ -739,7 +739,7 @@ PROPS = {
                 assumptions=['serde: exercised through serde_json 1.0.151 / serde_cbor 0.11.2 with default features only; little-endian target for *_ne_bytes']),
     'C03': dict(lean_modules=['SfxProps.C03', 'SfxProps.C03Half', 'SfxProps.C03Spec'], bins=['conv'], profiles=['rel'], gen=gen_C03x),
     'C04': dict(lean_modules=['SfxProps.C04', 'SfxProps.C04Prim', 'SfxProps.C04Cast', 'SfxProps.C04Spec'], bins=['conv', 'cast'], profiles=['chk', 'rel'], gen=gen_C04x),
-    'C05': dict(lean_modules=['SfxProps.C05', 'SfxProps.C05Half', 'SfxProps.C04Cast'], bins=['conv', 'cast'], profiles=['chk', 'rel'], gen=gen_C05x,
+    'C05': dict(lean_modules=['SfxProps.C05', 'SfxProps.C05Half', 'SfxProps.C04Cast', 'SfxProps.C05Spec'], bins=['conv', 'cast'], profiles=['chk', 'rel'], gen=gen_C05x,
                 exhaustive_parts=['to_float_kind for half::f16 and half::bf16: all 65 536 bit patterns x 10 (width, frac) pairs in quick, x all 253 pairs in thorough',
                                   'checked_from_num(f16|bf16): all 65 536 patterns on I1F7 and U8F8 in quick, on every typed layout in thorough']),
     'C12': dict(lean_modules=['SfxProps.C12', 'SfxProps.C12Tan', 'SfxProps.C12Pairs'], bins=['math'], profiles=['chk', 'rel'], gen=gen_C12),
